@@ -296,6 +296,71 @@ func init() {
 		}
 		return nil
 	})
+	reg("Freeze", func(e *Engine, fn *ssa.Function, a []Value) Value {
+		// mark every object reachable from the value as shared state: any later store into
+		// one of them is reported (write-set monitor for the concurrency property)
+		label := concStr(e, a[1])
+		seen := map[*Obj]bool{}
+		n := 0
+		var walk func(v Value, depth int)
+		walk = func(v Value, depth int) {
+			if depth > 64 {
+				return
+			}
+			switch x := v.(type) {
+			case Ptr:
+				if x.O != nil && !seen[x.O] {
+					seen[x.O] = true
+					x.O.Protected = label
+					n++
+					if x.O.Arr != nil {
+						for _, c := range x.O.Arr {
+							walk(c, depth+1)
+						}
+					} else {
+						walk(x.O.V, depth+1)
+					}
+				} else if x.C != nil && x.O == nil {
+					walk(*x.C, depth+1)
+				}
+			case Slice:
+				if x.O != nil && !seen[x.O] {
+					seen[x.O] = true
+					x.O.Protected = label
+					n++
+				}
+				for _, c := range x.D {
+					walk(c, depth+1)
+				}
+			case Struct:
+				for _, c := range x {
+					walk(c, depth+1)
+				}
+			case Array:
+				for _, c := range x {
+					walk(c, depth+1)
+				}
+			case Iface:
+				if x.T != nil {
+					walk(x.V, depth+1)
+				}
+			case *Closure:
+				for _, c := range x.Env {
+					walk(c, depth+1)
+				}
+			case *Map:
+				if x != nil {
+					for _, en := range x.Entries {
+						walk(en.K, depth+1)
+						walk(en.V, depth+1)
+					}
+				}
+			}
+		}
+		walk(a[0], 0)
+		e.res.Stubs[fmt.Sprintf("shared-write monitor: froze %d objects (%s)", n, label)]++
+		return e.intc(n)
+	})
 	reg("CheckProtected", func(e *Engine, fn *ssa.Function, a []Value) Value { return nil })
 	reg("SameArray", func(e *Engine, fn *ssa.Function, a []Value) Value {
 		x, y := a[0].(Slice), a[1].(Slice)
